@@ -7,9 +7,13 @@ from . import proggen as G
 ID = "C01"
 NEEDS_CVM = True
 ORACLE_ON_MODEL = False  # the model side of a VM case runs the *real* image: it is not Model(x) of the theorem
-AUDIT_IMPORTS = ["PortusModel.Props.C03", "PortusModel.Props.C10", "PortusModel.Props.C13", "PortusModel.Props.C14"]
-# proved so far (the end-to-end simulation theorem is in progress, see LEVEL_TEXT): the compiler invariants C01 rests on
-THEOREMS = ["Portus.C03.bin_wf", "Portus.C13.compile_scope_slots", "Portus.C13.instrs_use_scope", "Portus.C14.literal_read_back",
+AUDIT_IMPORTS = ["PortusModel.Props.C03", "PortusModel.Props.C10", "PortusModel.Props.C13", "PortusModel.Props.C14",
+                 "PortusModel.Props.C01Sim"]
+THEOREMS = ["Portus.C01.compiled_run_correct", "Portus.C01.check_accepts_compiled", "Portus.C01.exSrc_inTheorem",
+            "Portus.Lang.Frag.compile_refines_lower", "Portus.Lang.Frag.rhoOk_of_compile", "Portus.Lang.Frag.defsFor_of_compile",
+            "Portus.Lang.Frag.lowerE_correct", "Portus.Lang.Frag.lowerStmt_correct", "Portus.Lang.Frag.lowerEvents_correct",
+            "Portus.Lang.Frag.invoke_correct", "Portus.Lang.Frag.lower_run_correct", "Portus.Lang.Frag.switch_sim",
+            "Portus.C03.bin_wf", "Portus.C13.compile_scope_slots", "Portus.C13.instrs_use_scope", "Portus.C14.literal_read_back",
             "Portus.C10.compile_and_serialize_no_panic"]
 RELATION = ("(a) image bytes of compile_and_serialize; (b) per-invocation observations (return code, set_cwnd, set_rate, report "
             "message) of the REAL libccp running the REAL image on scripted measurement/clock sequences, vs the Lean libccp model")
@@ -26,13 +30,18 @@ ASSUMPTIONS = ["fragment hypotheses (decidable, checked per case): Stratified, L
                "(&&/|| only on truth values), distinct non-built-in declared names, at most 255 instructions",
                "one clock reading per invocation; fallback timer disabled; a single program per connection",
                "ALU is a shared parameter (libccp's arithmetic and fault rules, incl. its incomplete multiplication-overflow test)"]
-LEVEL_TEXT = ("PARTIAL. Proved in Lean: the compiler's structural invariants (C03/C10/C13/C14) and the expression-level lemmas listed in "
-              "THEOREMS; the end-to-end simulation theorem (source semantics = libccp on the compiled image for every program of the "
-              "fragment and every input sequence) is not yet closed. Decided today by translation validation with the Lean source "
-              "semantics as oracle against the real compiler and the real libccp on generated programs and boundary-value input "
-              "sequences, and by correspondence of the Lean libccp model with libccp's C code.")
+LEVEL_TEXT = ("PARTIAL. Machine-checked proof (Lean 4) of the simulation theorem C01.compiled_run_correct / check_accepts_compiled: for every "
+              "program of the fragment (Stratified, DefBeforeUse, LitsOk, WritesOk, literal initial values, <= 6 locals, >= 1 event) that the "
+              "compiler and the encoder accept, and for EVERY sequence of measurement vectors and clock readings, the libccp machine model "
+              "running the compiled program from a fresh connection shows exactly the observations the source semantics denotes (faults and "
+              "their codes, settings, which invocations report and every reported value), as long as &&/|| meet truth values. It composes "
+              "compile = reference lowering under the final scope (compile_refines_lower) with lowering ~ source semantics "
+              "(lower_run_correct, switch_sim). Not proved (decided by correspondence/translation validation on generated programs, the "
+              "evidence counts in-theorem vs in-fragment cases): programs outside the fragment (nested binds, reads of never-assigned "
+              "names, non-literal initial values), the byte-level decoding of the image by libccp, staged updates, and the fidelity of the "
+              "Lean libccp model to libccp's C code (validated against the real libccp on every generated script).")
 LEVEL_NOTE = "Trusts: Lean kernel for the proved lemmas; the oracle's source semantics (Lang/Sem.lean, ~200 lines, written from the documentation); sampling of programs and inputs."
-TECHNIQUE = "Lean 4 source semantics + Lean libccp model; translation validation against real compiler and real libccp (oracle in Lean); partial simulation proof"
+TECHNIQUE = "Lean 4 simulation proof (compile = reference lowering; lowering ~ source semantics on the libccp machine model) + translation validation of real compiler and real libccp against the Lean source semantics"
 
 BOUND = [0, 1, 2**31, 2**32 - 1, 2**63, 2**64 - 1]
 
@@ -93,6 +102,9 @@ def gen(ctx):
 
 
 FIXED = [
+    # F11 (fixed 1b648fc): the second bind of x wrote the register of y
+    "(def (Report (acked 0)) (c 0)) (when true (:= x y) (:= x 3) (:= Report.acked x) (report))",
+    "(def (Report (acked 0) (volatile z 2))) (when true (:= x y) (:= x (+ Ack.bytes_acked 1)) (:= y 7) (:= Report.acked (+ x y)) (fallthrough)) (when (> Report.acked 8) (:= Report.z x) (report))",
     "(def (Report (volatile acked 0) (volatile sacked 0) (volatile loss 0) (volatile timeout false) (volatile rtt 0) (volatile inflight 0))) "
     "(when true (:= Report.inflight Flow.packets_in_flight) (:= Report.rtt Flow.rtt_sample_us) (:= Report.acked (+ Report.acked Ack.bytes_acked)) "
     "(:= Report.sacked (+ Report.sacked Ack.packets_misordered)) (:= Report.loss Ack.lost_pkts_sample) (:= Report.timeout Flow.was_timeout) (fallthrough)) "
